@@ -45,8 +45,6 @@ def prog(pi: int, s1: int, s2: int, s3: int, s4: int) -> bool:
     pattern = pick(PATTERNS[(hlib.PART // len(P))::nh], pi)
     n = nslots()
     sel = [pick(SLOTS[:n], s) for s in (s1, s2, s3)]
-    if hlib.TIER == "thorough":
-        sel.append(pick(SLOTS[:n], s4))
     if pattern is None or None in sel:
         return finish(False, True)
     return ops.native(_run, env, fam, which, pattern, sel, (pi, s1, s2, s3, s4))
@@ -251,7 +249,7 @@ def _run(env, fam, which, pattern, sel, args):
 def plan(tier):
     if tier == "quick":
         return [{"fn": "prog", "nparts": 4 * 5, "timeout": 300}]
-    return [{"fn": "prog", "nparts": len(PARTS) * 15, "timeout": 2400}]
+    return [{"fn": "prog", "nparts": len(PARTS) * 15, "timeout": 900}]
 
 
 def smoke(tier):
@@ -276,6 +274,6 @@ FUNCTIONS = [
     "synced_collections.buffers.memory_buffered_collection:SharedMemoryFileBufferedCollection._flush",
 ]
 BOUNDS = {"quick": {"classes": "BufferedJSON / MemoryBufferedJSON dict and list", "files": 2, "objects": 3, "patterns": PATTERNS, "capacities": {"S": 0, "T": 1, "L": "4 x default", "N": "not given"}, "slots": 3, "slot_operations": SLOTS[:8]},
-          "thorough": {"classes": 8, "slots": 4, "slot_operations": SLOTS}}
+          "thorough": {"classes": 8, "slots": 3, "slot_operations": SLOTS}}
 ASSUMPTIONS = ["the recomputation reads the class's own buffer entries (sum of len(contents) / number of modified entries): 'the observable buffered files' of the statement", "tiny capacities are 0 and 1 so that the model's size measure and real byte counts agree on every comparison with the capacity", "finite program space explored exhaustively through the solver's path tree; decided programs run natively"]
-OUTSIDE = ["capacities between 2 bytes and one document", "more than 3 (4) operations"]
+OUTSIDE = ["capacities between 2 bytes and one document", "more than 3 operations"]
